@@ -6,27 +6,9 @@ import (
 )
 
 var dbgQueries = []string{
-	`select ?s, ?o from ?g where { ?s "p"@[] ?o } ;`,
-	`select ?s, ?o, ?z from ?g where { ?s "p"@[] ?o . ?o "p"@[] ?z } ;`,
-	`select ?s, ?o, ?z from ?g where { ?s "p"@[] ?o . optional { ?o "q"@[] ?z } } ;`,
-	`select ?s, count(?o) as ?n from ?g where { ?s "p"@[] ?o } group by ?s order by ?n desc ;`,
-	`select ?s, ?o from ?g where { ?s "p"@[] ?o } order by ?s desc limit "1"^^type:int64 ;`,
-	`select ?s, ?o from ?g where { ?s "p"@[] ?o } having ?s = /u<a> ;`,
-	`select ?s id ?sid, ?o type ?ot from ?g where { ?s id ?sid "p"@[] ?o type ?ot } ;`,
-	`insert data into ?g { /u<x> "p"@[] /u<y> } ;`,
-	`delete data from ?g { /u<a> "p"@[] /u<b> } ;`,
-	`create graph ?h ;`,
-	`drop graph ?g ;`,
-	`construct { ?s "r"@[] ?o } into ?g from ?g where { ?s "p"@[] ?o } ;`,
-	`deconstruct { ?s "p"@[] ?o } in ?g from ?g where { ?s "p"@[] ?o } ;`,
-	`show graphs ;`,
-	`select ?s, ?p, ?o from ?g where { ?s ?p ?o } ;`,
-	`select ?o from ?g where { /u<a> "p"@[] ?o } ;`,
-	`select ?s from ?g where { ?s "t"@[?t] ?o } ;`,
-	`select ?s, ?o from ?g where { ?s "t"@[2019-01-01T00:00:00Z, 2021-01-01T00:00:00Z] ?o } ;`,
-	`select ?s, ?o from ?g where { ?s "p"@[] ?o . filter latest(?o) } ;`,
-	`construct { ?s "r"@[] ?o ; "w"@[] ?s } into ?g from ?g where { ?s "p"@[] ?o } ;`,
-	`select ?s, ?o from ?g where { ?s "p"@[] ?o } before 2021-01-01T00:00:00Z ;`,
+	`select ?s, ?o, ?t from ?g where { /u<a> "p"@[] ?x . optional { ?s ?p ?o at ?t } } ;`,
+	`select ?s id ?sid, ?p id ?pid from ?g where { ?s id ?sid ?p id ?pid ?o } ;`,
+	`select ?s type ?st from ?g where { ?s type ?st "p"@[] ?o } ;`,
 }
 
 func HarnessDbgSelect() {
@@ -34,7 +16,8 @@ func HarnessDbgSelect() {
 		mustTriple(mustNode("/u", "a"), mustImmutable("p"), triple.NewNodeObject(mustNode("/u", "b"))),
 		mustTriple(mustNode("/u", "b"), mustImmutable("p"), triple.NewNodeObject(mustNode("/u", "c"))),
 	}
-	st, _ := newStoreWith("?g", ts)
+	_ = ts
+	st := c08Store(true)
 	q := dbgQueries[verif.Choice("q", len(dbgQueries))]
 	tbl, err := runBQL(st, q, 0, 10)
 	verif.Reach("executed")
